@@ -615,7 +615,8 @@ def single_defs(fn: ast.AST) -> dict[str, ast.expr]:
             tg = [i.optional_vars for i in n.items if i.optional_vars is not None]
         for t in tg:
             for x in ast.walk(t):
-                if isinstance(x, ast.Name):
+                # only names that are (re)bound: `fields["u"] = v` stores an element, it does not rebind `fields`
+                if isinstance(x, ast.Name) and isinstance(x.ctx, (ast.Store, ast.Del)):
                     count[x.id] = count.get(x.id, 0) + 1
         if isinstance(n, ast.Assign) and len(n.targets) == 1 and isinstance(n.targets[0], ast.Name):
             defs[n.targets[0].id] = n.value
@@ -625,7 +626,28 @@ def single_defs(fn: ast.AST) -> dict[str, ast.expr]:
     if isinstance(fn, ast.FunctionDef):
         a = fn.args
         params = {x.arg for x in a.posonlyargs + a.args + a.kwonlyargs}
-    return {k: v for k, v in defs.items() if count.get(k, 0) == 1 and k not in params}
+    # names whose object is modified in place (x[i] = v, x.attr = v, x += v): substituting the defining
+    # expression is only sound when that expression denotes an existing object (an access path such as
+    # self.fields), not when it builds a fresh one (list(subgrid), np.zeros(...))
+    mutated: set[str] = set()
+    for n in walk_no_nested(fn):
+        tg = n.targets if isinstance(n, ast.Assign) else [n.target] if isinstance(n, (ast.AugAssign, ast.AnnAssign)) else []
+        for t in tg:
+            for el in t.elts if isinstance(t, (ast.Tuple, ast.List)) else [t]:
+                b = el
+                while isinstance(b, (ast.Subscript, ast.Attribute)):
+                    b = b.value
+                if isinstance(b, ast.Name) and b is not el:
+                    mutated.add(b.id)
+
+    def is_path(e: ast.expr) -> bool:
+        while isinstance(e, (ast.Attribute, ast.Subscript)):
+            if isinstance(e, ast.Subscript) and not isinstance(e.slice, ast.Constant):
+                return False
+            e = e.value
+        return isinstance(e, ast.Name)
+
+    return {k: v for k, v in defs.items() if count.get(k, 0) == 1 and k not in params and (k not in mutated or is_path(v))}
 
 
 class _Subst(ast.NodeTransformer):
@@ -650,23 +672,67 @@ def expand_locals(e: ast.AST, fn: ast.AST, defs: Optional[dict] = None) -> ast.A
     return ast.fix_missing_locations(_Subst(defs).visit(copy.deepcopy(e)))
 
 
+def path_alias_defs(fn: ast.AST) -> dict[str, ast.expr]:
+    """Single-assignment locals whose definition is an access path (variables = self.variables,
+    grid = self.modules["grid"]): aliases of existing objects, safe to substitute anywhere."""
+    out = {}
+    for k, v in single_defs(fn).items():
+        e = v
+        ok = True
+        while isinstance(e, (ast.Attribute, ast.Subscript)):
+            if isinstance(e, ast.Subscript) and not isinstance(e.slice, ast.Constant):
+                ok = False
+                break
+            e = e.value
+        if ok and isinstance(e, ast.Name) and isinstance(v, (ast.Attribute, ast.Subscript)):
+            out[k] = v
+    return out
+
+
+def punparse(e: ast.AST, fn: ast.AST) -> str:
+    """unparse with object-path aliases expanded (and nothing else)."""
+    return unparse(expand_locals(e, fn, path_alias_defs(fn)))
+
+
 def xunparse(e: ast.AST, fn: ast.AST, defs: Optional[dict] = None) -> str:
     return unparse(expand_locals(e, fn, defs))
 
 
 def unroll_literal_loops(fn: ast.FunctionDef) -> ast.FunctionDef:
-    """Copy of fn where `for v in (<constants>): body` is replaced by the bodies with v substituted."""
+    """Copy of fn where `for v in (<literal elements>): body` is replaced by the bodies with v
+    substituted. The iterable may be a literal tuple/list or a local bound once to one; the target may
+    be a tuple of names when every element is a tuple of that length (a table-driven loop)."""
     import copy
+
+    sdefs = single_defs(fn)
 
     class U(ast.NodeTransformer):
         def visit_For(self, node: ast.For):
             self.generic_visit(node)
             it = node.iter
-            if isinstance(it, (ast.Tuple, ast.List)) and it.elts and all(isinstance(x, ast.Constant) for x in it.elts) and isinstance(node.target, ast.Name) and not node.orelse:
-                out = []
+            if isinstance(it, ast.Name) and isinstance(sdefs.get(it.id), (ast.Tuple, ast.List)):
+                it = sdefs[it.id]
+            if not (isinstance(it, (ast.Tuple, ast.List)) and it.elts and not node.orelse):
+                return node
+            if any(isinstance(x, (ast.Break, ast.Continue)) for b in node.body for x in ast.walk(b)):
+                return node
+            out = []
+            if isinstance(node.target, ast.Name):
+                simple = all(isinstance(x, (ast.Constant, ast.Name, ast.Attribute)) for x in it.elts)
+                if not simple:
+                    return node
                 for c in it.elts:
                     for st in node.body:
                         out.append(_Subst({node.target.id: c}).visit(copy.deepcopy(st)))
+                return out
+            if isinstance(node.target, (ast.Tuple, ast.List)) and all(isinstance(t, ast.Name) for t in node.target.elts):
+                k = len(node.target.elts)
+                if not all(isinstance(e, (ast.Tuple, ast.List)) and len(e.elts) == k for e in it.elts):
+                    return node
+                for e in it.elts:
+                    mapping = {t.id: v for t, v in zip(node.target.elts, e.elts)}
+                    for st in node.body:
+                        out.append(_Subst(mapping).visit(copy.deepcopy(st)))
                 return out
             return node
 
@@ -754,3 +820,358 @@ def call_chain(e: ast.expr):
         out.append((e.func.attr, e))
         e = e.func.value
     return out, e
+
+
+# ---------------------------------------------------------------------------
+# AST-level inlining of small local helpers (robustness against "extract function")
+# ---------------------------------------------------------------------------
+def _helper_of(prog: "Program", fi: FuncInfo, call: ast.Call, private_only: bool) -> Optional[FuncInfo]:
+    f = call.func
+    name = None
+    qual = None
+    if isinstance(f, ast.Name):
+        name = f.id
+        qual = f"{fi.module.name}.{name}"
+    elif isinstance(f, ast.Attribute) and isinstance(f.value, ast.Name) and f.value.id == "self" and fi.cls:
+        name = f.attr
+        qual = f"{fi.module.name}.{fi.cls}.{name}"
+    if name is None or (private_only and not name.startswith("_")) or name.startswith("__"):
+        return None
+    try:
+        h = prog.func(qual)
+    except (AnchorMissing, AnalysisError):
+        return None
+    if h.qual == fi.qual or h.is_kernel or h.node.decorator_list:
+        return None
+    body = [s for s in h.node.body if not (isinstance(s, ast.Expr) and isinstance(s.value, ast.Constant))]
+    # simple: no generators / nested defs; `return` only as the last top-level statement
+    for n in ast.walk(h.node):
+        if isinstance(n, (ast.Yield, ast.YieldFrom, ast.Lambda)) or (isinstance(n, (ast.FunctionDef, ast.ClassDef)) and n is not h.node):
+            return None
+    rets = [n for n in ast.walk(h.node) if isinstance(n, ast.Return)]
+    if len(rets) > 1 or (rets and (not body or rets[0] is not body[-1])):
+        return None
+    if any(isinstance(a, ast.Starred) for a in call.args) or any(k.arg is None for k in call.keywords):
+        return None
+    if h.node.args.vararg or h.node.args.kwarg:
+        return None
+    return h
+
+
+def inline_helpers(prog: "Program", fi: FuncInfo, depth: int = 2, private_only: bool = True) -> FuncInfo:
+    """Copy of `fi` in which calls to small helpers of the same module / class (private by default) are
+    replaced by their bodies: parameters become assignments, locals are renamed apart, the returned
+    expression is bound to the call's target. A rule that reads the statements of `fi` then sees the
+    same code whether or not a maintainer has extracted part of it into a helper."""
+    import copy
+
+    counter = [0]
+
+    class Rename(ast.NodeTransformer):
+        def __init__(self, mapping):
+            self.mapping = mapping
+
+        def visit_Name(self, node: ast.Name):
+            if node.id in self.mapping:
+                return ast.copy_location(ast.Name(id=self.mapping[node.id], ctx=node.ctx), node)
+            return node
+
+    def expand_call(call: ast.Call, h: FuncInfo):
+        """-> (statements, result expression or None)"""
+        counter[0] += 1
+        tag = f"__{h.name.strip('_')}{counter[0]}"
+        node = copy.deepcopy(h.node)
+        params = [a.arg for a in node.args.posonlyargs + node.args.args + node.args.kwonlyargs]
+        is_method = bool(h.cls) and params and params[0] == "self"
+        if is_method:
+            params = params[1:]
+        local_names = {x.id for x in ast.walk(node) if isinstance(x, ast.Name) and isinstance(x.ctx, (ast.Store, ast.Del))} | set(params)
+        mapping = {n: n + tag for n in local_names}
+        # bind arguments
+        bound: dict[str, ast.expr] = {}
+        for p_, a in zip(params, call.args):
+            bound[p_] = a
+        for k in call.keywords:
+            bound[k.arg] = k.value
+        dflt = h.defaults()
+        pre = []
+        stored_in_helper = {x.id for x in ast.walk(node) if isinstance(x, ast.Name) and isinstance(x.ctx, (ast.Store, ast.Del))}
+        direct: dict[str, ast.expr] = {}
+
+        def simple_path(e: ast.expr) -> bool:
+            while isinstance(e, ast.Attribute):
+                e = e.value
+            return isinstance(e, ast.Name)
+
+        for p_ in params:
+            v = bound.get(p_, dflt.get(p_))
+            if v is None:
+                return None
+            if simple_path(v) and p_ not in stored_in_helper:
+                direct[p_] = copy.deepcopy(v)  # the parameter is just another name for the argument
+                mapping.pop(p_, None)
+                continue
+            pre.append(ast.Assign(targets=[ast.Name(id=mapping[p_], ctx=ast.Store())], value=copy.deepcopy(v), lineno=call.lineno, col_offset=0))
+        body = [s for s in node.body if not (isinstance(s, ast.Expr) and isinstance(s.value, ast.Constant))]
+        body = [Rename(mapping).visit(s) for s in body]
+        if direct:
+            body = [_Subst(direct).visit(s) for s in body]
+        result = None
+        if body and isinstance(body[-1], ast.Return):
+            result = body[-1].value
+            body = body[:-1]
+        stmts = pre + body
+        for s in stmts:
+            ast.fix_missing_locations(s)
+        return stmts, result
+
+    def inline_pure_expressions(st: ast.stmt) -> None:
+        """Helpers whose body is a single `return <expr>` are substituted inside any expression of the
+        statement (if/while tests included)."""
+        for _ in range(4):
+            done = True
+            for fieldname in ("test", "value", "iter", "exc"):
+                e = getattr(st, fieldname, None)
+                if not isinstance(e, ast.AST):
+                    continue
+                for c in ast.walk(e):
+                    if not isinstance(c, ast.Call):
+                        continue
+                    h = _helper_of(prog, fi, c, private_only)
+                    if h is None:
+                        continue
+                    hb = [s_ for s_ in h.node.body if not (isinstance(s_, ast.Expr) and isinstance(s_.value, ast.Constant))]
+                    if len(hb) != 1 or not isinstance(hb[0], ast.Return) or hb[0].value is None:
+                        continue
+                    params = [a.arg for a in h.node.args.posonlyargs + h.node.args.args + h.node.args.kwonlyargs]
+                    if h.cls and params and params[0] == "self":
+                        params = params[1:]
+                    bound = dict(zip(params, c.args))
+                    bound.update({k.arg: k.value for k in c.keywords})
+                    dflt = h.defaults()
+                    if any(p_ not in bound and p_ not in dflt for p_ in params):
+                        continue
+                    mapping = {p_: copy.deepcopy(bound.get(p_, dflt.get(p_))) for p_ in params}
+                    repl = _Subst(mapping, depth=1).visit(copy.deepcopy(hb[0].value))
+
+                    class Swap2(ast.NodeTransformer):
+                        def visit_Call(self, node):
+                            if node is c:
+                                return repl
+                            return self.generic_visit(node)
+
+                    setattr(st, fieldname, ast.fix_missing_locations(Swap2().visit(e)))
+                    done = False
+                    break
+            if done:
+                break
+
+    def process(stmts: list, level: int) -> list:
+        out = []
+        for st in stmts:
+            if level > 0:
+                inline_pure_expressions(st)
+            # recurse into compound statements first
+            for field in ("body", "orelse", "finalbody"):
+                if hasattr(st, field) and isinstance(getattr(st, field), list) and not isinstance(st, (ast.FunctionDef, ast.ClassDef)):
+                    setattr(st, field, process(getattr(st, field), level))
+            if isinstance(st, ast.Try):
+                for hd in st.handlers:
+                    hd.body = process(hd.body, level)
+            holder = None
+            if isinstance(st, (ast.Assign, ast.AnnAssign, ast.AugAssign, ast.Return, ast.Expr)) and getattr(st, "value", None) is not None:
+                holder = st
+            if holder is None or level <= 0:
+                out.append(st)
+                continue
+            pre_all = []
+            changed = True
+            guard = 0
+            while changed and guard < 8:
+                changed = False
+                guard += 1
+                for c in ast.walk(holder.value):
+                    if isinstance(c, ast.Call):
+                        h = _helper_of(prog, fi, c, private_only)
+                        if h is None:
+                            continue
+                        ex = expand_call(c, h)
+                        if ex is None:
+                            continue
+                        body, result = ex
+                        body = process(body, level - 1)
+                        pre_all += body
+                        repl = result if result is not None else ast.Constant(value=None)
+
+                        class Swap(ast.NodeTransformer):
+                            def visit_Call(self, node):
+                                if node is c:
+                                    return repl
+                                return self.generic_visit(node)
+
+                        holder.value = Swap().visit(holder.value)
+                        changed = True
+                        break
+            out += pre_all
+            if isinstance(holder, ast.Expr) and isinstance(holder.value, ast.Constant) and pre_all:
+                continue  # bare helper call without a result: only its body remains
+            out.append(holder)
+        return out
+
+    node = copy.deepcopy(fi.node)
+    node.body = process(node.body, depth)
+    ast.fix_missing_locations(node)
+    return FuncInfo(fi.module, fi.qual, node, fi.cls)
+
+
+def forward_attr_locals(fi: FuncInfo) -> FuncInfo:
+    """Copy of `fi` where a local that is computed first and stored on `self` later
+    (`period = f(x); ...; self.output_period = period`) is replaced by the attribute from its first
+    definition on, and the forwarding store is dropped. The rewritten function computes the same
+    attribute values; it lets rules that follow `self.<attr>` read both spellings alike.
+    Applied only when (a) the attribute is stored nowhere else in the function, (b) the forwarding
+    store is a top-level statement and the local is assigned only before it, (c) no `self.method()`
+    call and no read of the attribute occurs between the local's first definition and the store."""
+    import copy
+
+    node = copy.deepcopy(fi.node)
+    body = node.body
+    changed = True
+    while changed:
+        changed = False
+        for idx, st in enumerate(body):
+            if not (isinstance(st, ast.Assign) and len(st.targets) == 1 and isinstance(st.value, ast.Name)):
+                continue
+            t = st.targets[0]
+            if not (isinstance(t, ast.Attribute) and isinstance(t.value, ast.Name) and t.value.id == "self"):
+                continue
+            local, attr = st.value.id, t.attr
+            if local in {a.arg for a in node.args.posonlyargs + node.args.args + node.args.kwonlyargs}:
+                continue
+            # (a) attribute stored only here
+            stores = [x for x in ast.walk(node) if isinstance(x, ast.Attribute) and isinstance(x.ctx, ast.Store) and x.attr == attr and isinstance(x.value, ast.Name) and x.value.id == "self"]
+            if len(stores) != 1:
+                continue
+            # (b) local assigned only before idx; first definition index
+            def_idx = [i for i, s2 in enumerate(body) if any(isinstance(x, ast.Name) and x.id == local and isinstance(x.ctx, ast.Store) for x in ast.walk(s2))]
+            if not def_idx or max(def_idx) >= idx:
+                continue
+            first = min(def_idx)
+            if any(isinstance(x, ast.Name) and x.id == local and isinstance(x.ctx, ast.Load) for s2 in body[:first] for x in ast.walk(s2)):
+                continue
+            # (c) nothing in between looks at the object
+            between = body[first:idx]
+            blocked = False
+            for s2 in between:
+                for x in ast.walk(s2):
+                    if isinstance(x, ast.Call) and isinstance(x.func, ast.Attribute) and isinstance(x.func.value, ast.Name) and x.func.value.id == "self":
+                        blocked = True
+                    if isinstance(x, ast.Attribute) and x.attr == attr and isinstance(x.value, ast.Name) and x.value.id == "self":
+                        blocked = True
+            if blocked:
+                continue
+
+            class Fwd(ast.NodeTransformer):
+                def visit_Name(self, n: ast.Name):
+                    if n.id == local:
+                        return ast.copy_location(ast.Attribute(value=ast.Name(id="self", ctx=ast.Load()), attr=attr, ctx=n.ctx), n)
+                    return n
+
+            new_body = []
+            for i, s2 in enumerate(body):
+                if i == idx:
+                    continue
+                new_body.append(Fwd().visit(s2) if i >= first else s2)
+            node.body = body = new_body
+            ast.fix_missing_locations(node)
+            changed = True
+            break
+    return FuncInfo(fi.module, fi.qual, node, fi.cls)
+
+
+def normalized(prog: "Program", fi: FuncInfo) -> FuncInfo:
+    """Helper calls inlined, locals that are merely forwarded to attributes replaced by the attributes."""
+    return forward_attr_locals(inline_helpers(prog, fi))
+
+
+# ---------------------------------------------------------------------------
+# path records: what each path of a statement list stores, with locals fully expanded
+# ---------------------------------------------------------------------------
+def lower_ifexp(stmts: list) -> list:
+    """`x = A if c else B` (as a whole assignment value) -> `if c: x = A else: x = B`, recursively,
+    so that path enumeration splits on conditional expressions as it does on statements."""
+    import copy
+
+    out = []
+    for st in stmts:
+        st = copy.deepcopy(st)
+        for field in ("body", "orelse", "finalbody"):
+            if hasattr(st, field) and isinstance(getattr(st, field), list) and not isinstance(st, (ast.FunctionDef, ast.ClassDef)):
+                setattr(st, field, lower_ifexp(getattr(st, field)))
+        if isinstance(st, ast.Assign) and isinstance(st.value, ast.IfExp):
+            a = ast.Assign(targets=copy.deepcopy(st.targets), value=st.value.body)
+            b = ast.Assign(targets=copy.deepcopy(st.targets), value=st.value.orelse)
+            new = ast.If(test=st.value.test, body=lower_ifexp([ast.copy_location(a, st)]), orelse=lower_ifexp([ast.copy_location(b, st)]))
+            out.append(ast.fix_missing_locations(ast.copy_location(new, st)))
+            continue
+        if isinstance(st, ast.AnnAssign) and isinstance(st.value, ast.IfExp):
+            a = ast.Assign(targets=[copy.deepcopy(st.target)], value=st.value.body)
+            b = ast.Assign(targets=[copy.deepcopy(st.target)], value=st.value.orelse)
+            new = ast.If(test=st.value.test, body=lower_ifexp([ast.copy_location(a, st)]), orelse=lower_ifexp([ast.copy_location(b, st)]))
+            out.append(ast.fix_missing_locations(ast.copy_location(new, st)))
+            continue
+        out.append(st)
+    return out
+
+
+def path_records(body: list, init_env: Optional[dict] = None, rename: Optional[dict] = None):
+    """For every path through `body` (conditional expressions lowered to statements):
+    -> [(path, conds, stores)] where conds = [(expanded test text, taken)], stores = [(expanded
+    target text, expanded value text, stmt)] for non-name targets, and `return` values as
+    ("return", text, stmt). Local names are substituted by their current definition along the path
+    (so temporaries, renamings and hoisted subexpressions disappear); `rename` maps names to
+    canonical spellings first (e.g. the dataset handle -> DS)."""
+    import copy
+
+    from .paths import enumerate_paths
+
+    body = lower_ifexp(body)
+    out = []
+    for p in enumerate_paths(body):
+        env: dict[str, ast.expr] = dict(init_env or {})
+
+        def sub(e):
+            e2 = _Subst(dict(env), depth=1).visit(copy.deepcopy(e))
+            if rename:
+                e2 = _Subst({k: ast.Name(id=v, ctx=ast.Load()) for k, v in rename.items()}, depth=1).visit(e2)
+            return ast.fix_missing_locations(e2)
+
+        conds, stores = [], []
+        for kind, node, *rest in p.steps:
+            if kind == "cond":
+                taken = rest[0] if rest else True
+                conds.append((unparse(sub(node)), taken))
+            elif kind == "stmt":
+                st = node
+                if isinstance(st, (ast.Assign, ast.AnnAssign)) and (st.value is not None):
+                    v = sub(st.value)
+                    tgts = st.targets if isinstance(st, ast.Assign) else [st.target]
+                    for t in tgts:
+                        if isinstance(t, ast.Name):
+                            env[t.id] = v
+                        elif isinstance(t, (ast.Tuple, ast.List)) and isinstance(v, (ast.Tuple, ast.List)) and len(t.elts) == len(v.elts):
+                            for a, b in zip(t.elts, v.elts):
+                                if isinstance(a, ast.Name):
+                                    env[a.id] = b
+                        else:
+                            stores.append((unparse(sub(t)), unparse(v), st))
+                elif isinstance(st, ast.AugAssign):
+                    if isinstance(st.target, ast.Name):
+                        cur = env.get(st.target.id, ast.Name(id=st.target.id, ctx=ast.Load()))
+                        env[st.target.id] = ast.fix_missing_locations(ast.BinOp(left=copy.deepcopy(cur), op=st.op, right=sub(st.value)))
+                    else:
+                        stores.append((unparse(sub(st.target)), "aug:" + unparse(sub(st.value)), st))
+                elif isinstance(st, ast.Return) and st.value is not None:
+                    stores.append(("return", unparse(sub(st.value)), st))
+        out.append((p, conds, stores))
+    return out
